@@ -81,8 +81,10 @@ def main():
                '`tools/seedtest.py` on a scratch copy (demonstration passes on the unchanged tree, patch\n'
                'compiles with `-Werror -Wall -Wextra -pedantic`, the 30 tests pass, demonstration fails with\n'
                'the patch) before the checks were run against the patched copy (`CATSA_REPO`), never against\n'
-               '`/repo`. After every change of the engine or of a rule the whole corpus is re-run\n'
-               '(`tools/regress.py`); the table shows the last run. "Target check" says whether the check of\n'
+               '`/repo`. After every batch of changes to the engine or the rules the corpus is re-run\n'
+               '(`tools/regress.py`); the table shows the last run of each seed (the last pass over all seeds of\n'
+               'rounds 1-4 preceded the final additions to C14, C15, C18 and C20, which were then run on the\n'
+               'seeds they concern, on rounds 5-6 and on every refactor). "Target check" says whether the check of\n'
                'the property the author aimed at reports a violation; "no verdict" means that it ended with\n'
                '`ANALYSIS-BROKEN` (exit 2) - typically because the change makes one machine write the other\'s\n'
                'fields, which C11 reports and which voids the per-machine analysis of the others (8.1).\n'
